@@ -3,7 +3,7 @@ CONSTANTS
   MaxReq = 2
   MaxTr = 1
   MaxResp = 2
-  Deviations = {"ClientCorrKept", "DupRequestId", "H1TrailerIdentity", "TrailerCorr", "NominatedToH2"}
+  Deviations = {"H1TrailerIdentity", "TrailerCorr", "NominatedToH2"}
   Emit = TRUE
   SampleMod = 40
   SampleRes = 1
